@@ -3,7 +3,7 @@ NEXT Next
 
 CONSTANTS
   MaxAttrs = 5
-  Letters = {2, 5, 7, 9, 12, 13}
+  Letters = {5, 7, 9, 12, 13, 17}
   HeaderIds = {1}
   Defects = {}
 INVARIANTS AcceptIffWellFormed ErrorIsACause RejectedHasCause ExposureInv EmitCase
